@@ -114,7 +114,8 @@ class SshProtocolMessage(ParsableBase):
         parser.parse_string_until_separator('software_version_and_comment', '\n')
         software_version_and_comment = parser['software_version_and_comment'].split(' ')
 
-        if software_version_and_comment[-1].endswith('\r'):
+        carriage_return_missing = not software_version_and_comment[-1].endswith('\r')
+        if not carriage_return_missing:
             software_version_and_comment[-1] = software_version_and_comment[-1][:-1]
 
         software_version_parser = ParserText(six.ensure_binary(software_version_and_comment[0], 'ascii'))
@@ -127,10 +128,12 @@ class SshProtocolMessage(ParsableBase):
             comment = ' '.join(software_version_and_comment[1:])
         else:
             comment = None
-        parser.parse_separator('\n')
+        parser.parse_string('separator', '\n')
 
-        if parser.parsed_length > 255:
-            raise TooMuchData(parser.parsed_length - 255)
+        # the limit applies to the string as it is composed, i.e. terminated by CR LF
+        identification_string_length = parser.parsed_length + (1 if carriage_return_missing else 0)
+        if identification_string_length > 255:
+            raise TooMuchData(identification_string_length - 255)
 
         return SshProtocolMessage(
             parser['protocol_version'],
